@@ -180,6 +180,20 @@ PROPS = {
             dict(name="TestFold", quick=5000, thorough=60000, shards_thorough=16),
         ],
     ),
+    "C19": dict(
+        pkg="c19", level="exploration",
+        technique="round-trip property testing (rapid) over entities, keys, options and stores; structure-aware and random hostile inputs to Apply with a no-damage oracle; native go fuzzing in the thorough tier",
+        level_text="Round trips of generated entities through constructors, publish, each store, replay and a strict materializer are compared with the originals; hostile inputs (random bytes, special documents, mutated valid messages, coverage-guided fuzzing in thorough) must never panic and an error must leave every collection and LastOffset untouched.",
+        level_note="Invalid UTF-8 keys are not generated (JSON cannot carry them). Native fuzzing cannot be pinned to a seed; its saved crasher is the reproducible unit.",
+        assumptions=COMMON_ASSUME + ["the in-process durable-streams reference server is faithful"],
+        tests=[
+            dict(name="TestRoundTripMemory", quick=2000, thorough=30000, shards_thorough=4),
+            dict(name="TestRoundTripSQLite", quick=150, thorough=2500, shards_thorough=3, shrinktime="15s"),
+            dict(name="TestRoundTripDurable", quick=300, thorough=5000, shards_thorough=2, shrinktime="15s"),
+            dict(name="TestHostile", quick=20000, thorough=200000, shards_thorough=6),
+            dict(name="FuzzApply", quick=0, thorough=180, shards_thorough=1, fuzz=True, rapid=False, fuzz_workers=8),
+        ],
+    ),
 }
 
 HOOK_COMMITS = ["99604d0"]
